@@ -106,6 +106,10 @@ impl Drop for Bag {
     fn drop(&mut self) {
         // Call all deferred functions.
         for deferred in self.0.drain(..) {
+            #[cfg(feature = "circ_verif")]
+            crate::verif::yp(crate::verif::site::BAG_CALL);
+            #[cfg(feature = "circ_verif")]
+            crate::verif::ev(crate::verif::event::DEFERRED_CALL, 0, 0);
             deferred.call();
         }
     }
@@ -168,9 +172,17 @@ impl Global {
     pub(crate) fn push_bag(&self, bag: &mut Bag, guard: &Guard) {
         let bag = replace(bag, Bag::new());
 
+        #[cfg(feature = "circ_verif")]
+        crate::verif::yp(crate::verif::site::PUSH_BAG_FENCE);
         atomic::fence(Ordering::SeqCst);
 
+        #[cfg(feature = "circ_verif")]
+        crate::verif::yp(crate::verif::site::PUSH_BAG_EPOCH);
         let epoch = self.epoch.load(Ordering::Relaxed);
+        #[cfg(feature = "circ_verif")]
+        crate::verif::ev(crate::verif::event::BAG_SEAL, epoch.value(), bag.0.len());
+        #[cfg(feature = "circ_verif")]
+        crate::verif::yp(crate::verif::site::PUSH_BAG_PUSH);
         self.queue.push(bag.seal(epoch), guard);
     }
 
@@ -183,11 +195,15 @@ impl Global {
     /// `collect()` is not called.
     #[cold]
     pub(crate) fn collect(&self, guard: &Guard) {
+        #[cfg(feature = "circ_verif")]
+        crate::verif::ev(crate::verif::event::COLLECT, self as *const Global as usize, 0);
         if let Some(local) = unsafe { guard.local.as_ref() } {
             local.manual_count.set(0);
             local.pin_count.set(0);
         }
         self.try_advance(guard);
+        #[cfg(feature = "circ_verif")]
+        crate::verif::yp(crate::verif::site::COLLECT_AFTER_ADVANCE);
 
         debug_assert!(
             !guard.local.is_null(),
@@ -195,6 +211,8 @@ impl Global {
         );
 
         for _ in 0..Self::COLLECTS_TRIALS {
+            #[cfg(feature = "circ_verif")]
+            crate::verif::yp(crate::verif::site::COLLECT_POP);
             match self.queue.try_pop_if(
                 |sealed_bag: &SealedBag| sealed_bag.is_expired(self.epoch.load(Ordering::Relaxed)),
                 guard,
@@ -205,6 +223,8 @@ impl Global {
                 }
             }
         }
+        #[cfg(feature = "circ_verif")]
+        crate::verif::ev(crate::verif::event::COLLECT, self as *const Global as usize, 1);
     }
 
     /// Attempts to advance the global epoch.
@@ -217,6 +237,8 @@ impl Global {
     /// `try_advance()` is annotated `#[cold]` because it is rarely called.
     #[cold]
     pub(crate) fn try_advance(&self, guard: &Guard) -> Epoch {
+        #[cfg(feature = "circ_verif")]
+        crate::verif::yp(crate::verif::site::ADV_GLOBAL);
         let global_epoch = self.epoch.load(Ordering::Relaxed);
         atomic::fence(Ordering::SeqCst);
 
@@ -232,6 +254,8 @@ impl Global {
                     return global_epoch;
                 }
                 Ok(local) => {
+                    #[cfg(feature = "circ_verif")]
+                    crate::verif::yp(crate::verif::site::ADV_LOCAL);
                     let local_epoch = local.epoch.load(Ordering::Relaxed);
 
                     // If the participant was pinned in a different epoch, we cannot advance the
@@ -252,7 +276,11 @@ impl Global {
         // called from a thread that was pinned in `global_epoch`, and the global epoch cannot be
         // advanced two steps ahead of it.
         let new_epoch = global_epoch.successor();
+        #[cfg(feature = "circ_verif")]
+        crate::verif::yp(crate::verif::site::ADV_STORE);
         self.epoch.store(new_epoch, Ordering::Release);
+        #[cfg(feature = "circ_verif")]
+        crate::verif::ev(crate::verif::event::EPOCH_ADVANCE, new_epoch.value(), self as *const Global as usize);
         new_epoch
     }
 }
@@ -395,12 +423,16 @@ impl Local {
 
         if guard_count == 0 {
             let new_epoch = loop {
+                #[cfg(feature = "circ_verif")]
+                crate::verif::yp(crate::verif::site::PIN_GLOBAL);
                 let global_epoch = self.global().epoch.load(Ordering::Relaxed);
                 let new_epoch = global_epoch.pinned();
 
                 // Now we must store `new_epoch` into `self.epoch` and execute a `SeqCst` fence.
                 // The fence makes sure that any future loads from `Atomic`s will not happen before
                 // this store.
+                #[cfg(feature = "circ_verif")]
+                crate::verif::yp(crate::verif::site::PIN_PUBLISH);
                 if cfg!(all(
                     any(target_arch = "x86", target_arch = "x86_64"),
                     not(miri)
@@ -435,12 +467,18 @@ impl Local {
                     atomic::fence(Ordering::SeqCst);
                 }
 
+                #[cfg(feature = "circ_verif")]
+                crate::verif::yp(crate::verif::site::PIN_VALIDATE);
                 if new_epoch.value() == self.global().epoch.load(Ordering::Acquire).value() {
                     break new_epoch;
                 }
+                #[cfg(feature = "circ_verif")]
+                crate::verif::yp(crate::verif::site::PIN_RESET);
                 self.epoch.store(Epoch::starting(), Ordering::Release);
             };
 
+            #[cfg(feature = "circ_verif")]
+            crate::verif::ev(crate::verif::event::PIN, self as *const Local as usize, new_epoch.value());
             // Reset the advance couter if epoch has advanced.
             if new_epoch != self.prev_epoch.get() {
                 self.prev_epoch.set(new_epoch);
@@ -461,6 +499,8 @@ impl Local {
                 self.must_collect.set(false);
                 debug_assert!(self.epoch.load(Ordering::Relaxed).is_pinned());
                 let guard = ManuallyDrop::new(Guard { local: self });
+                #[cfg(feature = "circ_verif")]
+                crate::verif::yp(crate::verif::site::UNPIN_COLLECT);
                 self.global().collect(&guard);
                 self.repin_without_collect();
             }
@@ -469,7 +509,11 @@ impl Local {
 
         self.guard_count.set(guard_count - 1);
         if guard_count == 1 {
+            #[cfg(feature = "circ_verif")]
+            crate::verif::yp(crate::verif::site::UNPIN_CLEAR);
             self.epoch.store(Epoch::starting(), Ordering::Release);
+            #[cfg(feature = "circ_verif")]
+            crate::verif::ev(crate::verif::event::UNPIN, self as *const Local as usize, 0);
 
             if self.handle_count.get() == 0 {
                 self.finalize();
@@ -490,6 +534,8 @@ impl Local {
     /// Repins the local epoch without checking a scheduled collection.
     #[inline]
     pub(crate) fn repin_without_collect(&self) -> Epoch {
+        #[cfg(feature = "circ_verif")]
+        crate::verif::yp(crate::verif::site::REPIN_LOAD);
         let epoch = self.epoch.load(Ordering::Relaxed);
         let global_epoch = self.global().epoch.load(Ordering::Relaxed).pinned();
 
@@ -497,7 +543,11 @@ impl Local {
         if epoch != global_epoch {
             // We store the new epoch with `Release` because we need to ensure any memory
             // accesses from the previous epoch do not leak into the new one.
+            #[cfg(feature = "circ_verif")]
+            crate::verif::yp(crate::verif::site::REPIN_STORE);
             self.epoch.store(global_epoch, Ordering::Release);
+            #[cfg(feature = "circ_verif")]
+            crate::verif::ev(crate::verif::event::REPIN, self as *const Local as usize, global_epoch.value());
         }
         global_epoch
     }
@@ -526,6 +576,8 @@ impl Local {
     /// Removes the `Local` from the global linked list.
     #[cold]
     fn finalize(&self) {
+        #[cfg(feature = "circ_verif")]
+        crate::verif::ev(crate::verif::event::FINALIZE, self as *const Local as usize, 0);
         debug_assert_eq!(self.guard_count.get(), 0);
         debug_assert_eq!(self.handle_count.get(), 0);
 
@@ -535,6 +587,8 @@ impl Local {
         {
             // Pin and move the local bag into the global queue. It's important that `push_bag`
             // doesn't defer destruction on any new garbage.
+            #[cfg(feature = "circ_verif")]
+            crate::verif::yp(crate::verif::site::FIN_PIN);
             let guard = &self.pin();
             self.push_to_global(guard);
         }
@@ -548,11 +602,15 @@ impl Local {
             let collector: Collector = ptr::read(&**self.collector.get());
 
             // Mark this node in the linked list as deleted.
+            #[cfg(feature = "circ_verif")]
+            crate::verif::yp(crate::verif::site::FIN_DELETE);
             self.entry.delete(&unprotected());
 
             // Finally, drop the reference to the global. Note that this might be the last reference
             // to the `Global`. If so, the global data will be destroyed and all deferred functions
             // in its queue will be executed.
+            #[cfg(feature = "circ_verif")]
+            crate::verif::yp(crate::verif::site::FIN_DROP);
             drop(collector);
         }
     }
@@ -627,5 +685,45 @@ mod tests {
 
         drop(bag);
         assert_eq!(FLAG.load(Ordering::Relaxed), unsafe { MAX_OBJECTS });
+    }
+}
+
+/// A copy of a participant's private state.
+#[cfg(feature = "circ_verif")]
+#[derive(Clone, Copy, Debug, PartialEq, Eq)]
+#[allow(missing_docs)]
+pub struct LocalState {
+    pub local: usize,
+    pub global: usize,
+    pub pinned: bool,
+    pub announced: usize,
+    pub guard_count: usize,
+    pub handle_count: usize,
+    pub collecting: bool,
+    pub must_collect: bool,
+    pub bag_len: usize,
+}
+
+#[cfg(feature = "circ_verif")]
+impl Local {
+    pub(crate) fn verif_state(&self) -> LocalState {
+        let e = self.epoch.load(Ordering::SeqCst);
+        LocalState {
+            local: self as *const Local as usize,
+            global: &*self.collector().global as *const Global as usize,
+            pinned: e.is_pinned(),
+            announced: e.value(),
+            guard_count: self.guard_count.get(),
+            handle_count: self.handle_count.get(),
+            collecting: self.collecting.get(),
+            must_collect: self.must_collect.get(),
+            bag_len: unsafe { (*self.bag.get()).0.len() },
+        }
+    }
+
+    /// Reads only the atomic epoch word; may be called from any thread while the `Local` exists.
+    pub(crate) fn verif_epoch(&self) -> (bool, usize) {
+        let e = self.epoch.load(Ordering::SeqCst);
+        (e.is_pinned(), e.value())
     }
 }
